@@ -45,6 +45,8 @@ type worldSpec struct {
 	stub     []string
 	rule     string
 	assume   []string
+	enum     bool   // the world enumerates part of its space exhaustively
+	level    string // evidence level (default exploration)
 }
 
 var worlds = map[string]*worldSpec{
@@ -88,6 +90,14 @@ func init() {
 		rule: "one case = one simulated run. C05: a route table drawn from patterns with 0..4 parameters of differing names, 1..3 batches of requests (matching, partially matching then failing, unmatched, handler panicking under a recovering relay) from 1..4 concurrent clients, further routes registered between batches; every observation through Store is compared with the same request on a fresh Mux. C15: 1..6 clients with generated handler behaviours (status, body, panic point, eight panic value kinds, failing client connection) through Mux + Logger.Relay over each log handler; records are paired by request ID. Non-trivial = at least one context switch where the running task could have continued, forced pre-emption or fired fault; distinct = distinct hash of the full event history",
 		assume: []string{"request paths are well-formed (leading slash): what findRoute does with other strings is C04's subject", "C15 runs with colour off and URIs/tokens over [A-Za-z0-9/_-] so that the record tokenizers stay trivial and independent of C01/C13", "sampling, not proof: <=10 routes, <=4 clients x <=5 requests x <=3 batches"},
 	}
+	worlds["fsworld"] = &worldSpec{
+		name: "fsworld", pkgs: []string{"util/osutil"}, quick: 8000, thorough: 120000, enum: true, level: "fault_enumeration",
+		real: []string{"util/osutil/file.go (CopyFile, MoveFile: control flow, defers, error handling)", "io.Copy (32 KiB loop)"},
+		stub: []string{"the file system behind package os (simgo/shim/sos: inodes, links, symlinks, path resolution, two devices, open file descriptions, O_TRUNC at open, rename/unlink semantics) with per-call fault plans", "no concurrency in this property: the scheduler is idle"},
+		rule: "cases = (a) every scenario of {CopyFile, MoveFile} x 7 source sizes (0..1 MiB) x {regular, missing, via symlink} x 14 destination layouts (missing, shorter, longer, same path, ./ and dir/../ spellings, symlink to source, hard link of source, directory, parent missing, parent is a file, other mount missing/existing, dangling symlink), fault-free; (b) for each scenario every single-fault placement: each call of its recorded trace x each errno applicable to that primitive (writes additionally x {0, half, all-but-one} bytes written before the error) - (a) and (b) are enumerated completely; (c) seeded plans of up to three faults over random scenarios. distinct = distinct hash of (scenario, call trace with faults, result); every case is non-trivial (it runs the operation)",
+		assume: []string{"the simulated file system is faithful where the property looks: every fault-free scenario is also executed by the unrewritten package on the real file system (second mount: /dev/shm) and must agree in error class and resulting contents", "errors surfacing only at Close and power loss are outside the property's fault list"},
+	}
+	propWorld["C18"] = "fsworld"
 	propWorld["C05"] = "httpworld"
 	propWorld["C15"] = "httpworld"
 	propWorld["C02"] = "logworld"
@@ -210,7 +220,7 @@ func build(ws *worldSpec) (scratch, bin string) {
 		fatal("%v", err)
 	}
 	modFile := filepath.Join(scratch, "worlds.mod")
-	os.WriteFile(modFile, []byte(string(mod)+"\nreplace github.com/whoisnian/glb => "+filepath.Join(scratch, "glb")+"\n"), 0644)
+	os.WriteFile(modFile, []byte(string(mod)+"\nreplace github.com/whoisnian/glb => "+filepath.Join(scratch, "glb")+"\nreplace glborig => "+filepath.Join(scratch, "glborig")+"\n"), 0644)
 	sum, _ := os.ReadFile(filepath.Join(repoDir, "go.sum"))
 	os.WriteFile(filepath.Join(scratch, "worlds.sum"), sum, 0644)
 	bin = filepath.Join(scratch, ws.name)
@@ -352,6 +362,17 @@ func check(prop string, ws *worldSpec, tier string, seed uint64, runsOverride, w
 	if runsOverride > 0 {
 		runs = runsOverride
 	}
+	enumN := 0
+	if ws.enum {
+		out, code := runTool(bin, "-prop", prop, "-enumsize")
+		n, err := strconv.Atoi(strings.TrimSpace(out))
+		if code != 0 || err != nil {
+			os.RemoveAll(scratch)
+			fatal("enumeration failed: %s", out)
+		}
+		enumN = n
+		runs += enumN
+	}
 	var blocks []block
 	per := (runs + workers - 1) / workers
 	if tier == "thorough" {
@@ -412,6 +433,7 @@ func check(prop string, ws *worldSpec, tier string, seed uint64, runsOverride, w
 		tot.Switches += st.Switches
 		tot.Preempts += st.Preempts
 		tot.ReplayChecks += st.ReplayChecks
+		tot.Enumerated += st.Enumerated
 		wallWorkers += st.WallS
 		if st.MaxSteps > tot.MaxSteps {
 			tot.MaxSteps = st.MaxSteps
@@ -512,7 +534,7 @@ func check(prop string, ws *worldSpec, tier string, seed uint64, runsOverride, w
 		"property_id": prop,
 		"tier":        tier,
 		"seed":        seed,
-		"level":       "exploration",
+		"level":       levelOf(ws),
 		"wall_s":      round(wall),
 		"violations":  nViol,
 		"assumptions": ws.assume,
@@ -543,7 +565,9 @@ func check(prop string, ws *worldSpec, tier string, seed uint64, runsOverride, w
 			"tree":                     tree,
 			"build_s":                  round(buildS),
 			"known_findings_seen":      knownLines,
-			"exhaustive":               false,
+			"exhaustive":               ws.enum && tot.Enumerated == enumN*len(seeds),
+			"enumerated_cases":         enumN,
+			"enumerated_cases_run":     tot.Enumerated / len(seeds),
 		},
 	}
 	os.MkdirAll(filepath.Join(verifDir, "evidence"), 0755)
@@ -553,6 +577,13 @@ func check(prop string, ws *worldSpec, tier string, seed uint64, runsOverride, w
 	}
 	fmt.Printf("%s %s: %d runs, %d distinct non-trivial histories, %d violations, %.1fs\n", prop, tier, tot.Runs, len(nt), nViol, wall)
 	return exit
+}
+
+func levelOf(ws *worldSpec) string {
+	if ws.level != "" {
+		return ws.level
+	}
+	return "exploration"
 }
 
 func round(f float64) float64 { return float64(int64(f*100)) / 100 }
